@@ -13,8 +13,16 @@ Both defects that blocked the full-strength statements are repaired:
     `C02_bound_reply_completes`);
   * fix C02c: a request above the size limit fails its write with 104 instead of panicking inside `Pack`
     (`C02_oversize_request_completes`).
+
+"None hangs" is proved at full strength (`C02_no_stuck`: reply arrived ∨ connection lost ∨ session closed,
+in every reachable state without an enabled internal step; `C02_completion_follows`: every run of
+internal steps from such a state is finite and, where it can go no further, has completed every call).
+The invariant chain is in Lemmas/CallLifeLive (`GInv`). The model's cancel loop visits every entry that
+is in the pending table when `Range` starts (the guarantee of goutil's atomicMap.Range) plus any others.
 -/
 import Teleport.Lemmas.CallLife
+import Teleport.Lemmas.CallLifeLive
+import Teleport.Gen.CallPath
 namespace Teleport
 namespace C02
 open CallLife
@@ -113,11 +121,6 @@ theorem C02_unknown_seq_not_bound (s t : State) (seq : Nat) (d : Dec) (rs : Nat)
 
 /-! ## no hang -/
 
-/- Full-strength statement:
-     theorem C02_no_stuck (s : State) (r : Reachable s) (hq : ∀ l, l.internal = true → fire s l = none) :
-         ∀ (i : Nat) (c : Call), s.calls[i]? = some c →
-           (c.hasReply = true ∨ s.lost = true ∨ s.status.closed = true) → c.doneCount = 1               -/
-
 /-- the run behind the former defect `c02:nilcodec-reply-wedges-call`: one call is written; the peer
     answers with a REPLY whose body decode fails while the codec id is 0 (`Dec.errNil`: codec id 0,
     non-empty body, result not `*[]byte`); then everything settles. -/
@@ -148,17 +151,11 @@ theorem C02_no_reader_lock (s : State) (r : Reachable s) :
     ∀ (i : Nat) (c : Call), s.calls[i]? = some c → c.mu ≠ .reader :=
   fun i c h => ((ainv_reach r).2 i c h).nord
 
-/- The part of `C02_no_stuck` that is proved here is the "reply has arrived" disjunct. The "connection
-   lost" and "session closed" disjuncts (completion through the cancel loop of readDisconnected and through
-   the callers' own status check) are NOT proved as theorems: they need the chain of invariants sketched in
-   DESIGN §5 C02 (status never returns to Ok; every written, uncompleted call is in the Range snapshot; a
-   visited call is completed); they are exercised by the correspondence families F3–F6 only. -/
-
 /-- The "reply has arrived" disjunct of `C02_no_stuck`, without further hypotheses: in every reachable
     state in which no internal step is enabled, every call whose reply has been bound — whatever its
     decode outcome: ok, error under a known codec, error under codec id 0, decoder panic — has
     completed exactly once. -/
-theorem C02_no_stuck_partial (s : State) (r : Reachable s)
+theorem C02_no_stuck_reply (s : State) (r : Reachable s)
     (hq : ∀ l : Label, l.internal = true → fire s l = none) :
     ∀ (i : Nat) (c : Call), s.calls[i]? = some c → c.hasReply = true → c.doneCount = 1 ∧ c.chanSends = 1 := by
   intro i c hci hr
@@ -182,7 +179,7 @@ def answered : State :=
     inq := [], lost := false, sockClosed := false, status := .ok, rpc := .reading, cpc := .idle, otherH := 0,
     crashed := false, leaked := false }
 
-/-- non-vacuity of `C02_no_stuck_partial`: `answered` is reachable, quiescent and has a call with a
+/-- non-vacuity of `C02_no_stuck_reply`: `answered` is reachable, quiescent and has a call with a
     reply. -/
 example : Reachable answered ∧
     (∀ l : Label, l.internal = true → fire answered l = none) ∧
@@ -204,6 +201,196 @@ example : Reachable answered ∧
     | lose => simp [Label.internal] at hl
     | close => simp [Label.internal] at hl
     | _ => simp [fire, answered]
+
+/-! ### connection lost -/
+
+/-- Once the connection is lost (or the socket has been closed locally) and no internal step is enabled,
+    the reader has run `readDisconnected` to its end: it neither sits in the read loop, nor waits for a
+    call's mutex in `bindReply` or in the cancel loop, nor for the handler wait group. -/
+theorem C02_lost_reader_stops (s : State) (r : Reachable s)
+    (hq : ∀ l : Label, l.internal = true → fire s l = none) (hl : s.lost = true ∨ s.sockClosed = true) :
+    s.rpc = .stopped :=
+  quiescent_reader (ainv_reach r) (ginv_reach r) hq hl
+
+/-- The "connection lost" disjunct of `C02_no_stuck`, without further hypotheses (that the reader has
+    stopped is a consequence, `C02_lost_reader_stops`): in every reachable state — any interleaving of
+    callers, reader, handlers, `Close`, the cancel loop in ANY visiting order that covers the table
+    entries present when `Range` starts — in which the connection is lost and no internal step is
+    enabled, EVERY call (written or not, stored before or after the cancel loop took its snapshot, with
+    or without a reply) has completed exactly once. A call stored after the snapshot is not visited by
+    the loop; it fails its own status check in `write` (102) and the caller runs `done()` itself. -/
+theorem C02_no_stuck_lost (s : State) (r : Reachable s)
+    (hq : ∀ l : Label, l.internal = true → fire s l = none) (hl : s.lost = true) :
+    ∀ (i : Nat) (c : Call), s.calls[i]? = some c → c.doneCount = 1 ∧ c.chanSends = 1 :=
+  quiescent_done (ainv_reach r) (ginv_reach r) hq (Or.inl hl)
+
+/-- two calls: call 0 is written and unanswered when the connection is lost; call 1 is issued while the
+    reader is on the disconnect path and stored AFTER the cancel loop took its snapshot (`[0]`). -/
+def lostRun : List Label :=
+  [.issue false false false false 2, .store 0, .prewrite 0, .write 0 .ok, .unlock 0, .lose, .readerEof, .discLoad,
+   .discStore, .issue false false false false 2, .discCtxWait [0], .store 1, .prewrite 1, .write 1 .refused, .failDone 1,
+   .unlock 1, .discPick, .discVisit, .discPick, .discFinish]
+
+def lostEnd : State :=
+  { calls := [{ pc := .returned, mu := .free, hasReply := false, stat := 102, doneCount := 1, chanSends := 1,
+                inTable := false, rstat := 0, rerr := false, veto := false, ctxDone := false, tooBig := false,
+                bytesRes := false, cap := 2 },
+              { pc := .returned, mu := .free, hasReply := false, stat := 102, doneCount := 1, chanSends := 1,
+                inTable := false, rstat := 0, rerr := false, veto := false, ctxDone := false, tooBig := false,
+                bytesRes := false, cap := 2 }],
+    inq := [], lost := true, sockClosed := true, status := .passiveClosed, rpc := .stopped, cpc := .idle, otherH := 0,
+    crashed := false, leaked := false }
+
+/-- non-vacuity of `C02_no_stuck_lost` / `C02_lost_reader_stops`: `lostEnd` is reachable (by `lostRun`:
+    call 0 is cancelled by the loop, call 1 — stored after the snapshot — by its own caller), its
+    connection is lost and no internal step is enabled. -/
+example : Reachable lostEnd ∧ lostEnd.lost = true ∧
+    (∀ l : Label, l.internal = true → fire lostEnd l = none) := by
+  have hr : run State.init lostRun = some lostEnd := by decide
+  refine ⟨reach_run .init _ hr, rfl, ?_⟩
+  intro l hl
+  cases l with
+  | write i o => rcases i with _ | _ | i <;> cases o <;> simp [fire, lostEnd]
+  | store i => rcases i with _ | _ | i <;> simp [fire, lostEnd]
+  | prewrite i => rcases i with _ | _ | i <;> simp [fire, lostEnd]
+  | failDone i => rcases i with _ | _ | i <;> simp [fire, lostEnd]
+  | unlock i => rcases i with _ | _ | i <;> simp [fire, lostEnd]
+  | hDone i => rcases i with _ | _ | i <;> simp [fire, lostEnd]
+  | hUnlock i => rcases i with _ | _ | i <;> simp [fire, lostEnd]
+  | issue _ _ _ _ _ => simp [Label.internal] at hl
+  | frame _ => simp [Label.internal] at hl
+  | lose => simp [Label.internal] at hl
+  | close => simp [Label.internal] at hl
+  | _ => simp [fire, lostEnd]
+
+/-- The cancel loop must cover the table: a `Range` that yields nothing is not a step of the model when a
+    call is pending (before the guard on `discCtxWait` was added — "ANY index list" — this run ended in a
+    quiescent state with the connection lost and call 0 never completed; the real `atomicMap.Range`
+    visits every key present at its start). -/
+theorem C02_range_covers_table :
+    run State.init [.issue false false false false 2, .store 0, .prewrite 0, .write 0 .ok, .unlock 0, .lose, .readerEof,
+      .discLoad, .discStore, .discCtxWait []] = none ∧
+    (run State.init [.issue false false false false 2, .store 0, .prewrite 0, .write 0 .ok, .unlock 0, .lose, .readerEof,
+      .discLoad, .discStore, .discCtxWait [0]]).isSome = true := by
+  decide
+
+/-! ### session closed -/
+
+/-- `Close` waits for the outstanding calls: in EVERY reachable state (no quiescence needed) whose
+    status is ActiveClosed — `closeLocked` got past `graceCallCmdWaitGroup.Wait()` — every call whose
+    caller is past a successful write has completed exactly once; and no call is written afterwards
+    (a later `write` fails the status check), so this stays true. -/
+theorem C02_close_waits (s : State) (r : Reachable s) (hst : s.status = .activeClosed) :
+    ∀ (i : Nat) (c : Call), s.calls[i]? = some c → (c.pc = .written ∨ c.pc = .unlocking ∨ c.pc = .returned) →
+      c.doneCount = 1 ∧ c.chanSends = 1 := by
+  intro i c hc hpc
+  have ci := (ainv_reach r).2 i c hc
+  have hnp := (ginv_reach r).ac hst i c hc
+  have h1 : c.doneCount ≠ 0 := fun h0 => hnp ⟨h0, hpc⟩
+  have := ci.le1; have := ci.sends
+  omega
+
+/-- Once the reader is on the disconnect path past its status decision, the status word is never Ok
+    again (so every later `write` is refused with 102), and a closed status comes with a closed socket
+    (so the read loop ends without a further external event). -/
+theorem C02_status_not_ok_again (s : State) (r : Reachable s) :
+    ((s.rpc ≠ .reading ∧ (∀ i d rs, s.rpc ≠ .bindWait i d rs) ∧ s.rpc ≠ .discLoad ∧ s.rpc ≠ .discStore) →
+      s.status ≠ .ok) ∧
+    (s.status.closed = true → s.sockClosed = true) := by
+  have g := ginv_reach r
+  refine ⟨?_, g.sock⟩
+  intro ⟨h1, h2, h3, h4⟩ hst
+  have hc := g.cpl
+  rw [hst] at hc
+  cases hr : s.rpc with
+  | reading => exact h1 hr
+  | bindWait i d rs => exact h2 i d rs hr
+  | discLoad => exact h3 hr
+  | discStore => exact h4 hr
+  | discCtxWait a => rw [hr] at hc; cases a <;> simp [couple, SS.isAct, SS.isPC] at hc
+  | discLoop a t => rw [hr] at hc; cases a <;> simp [couple, SS.isAct, SS.isPC] at hc
+  | discLock a i t => rw [hr] at hc; cases a <;> simp [couple, SS.isAct, SS.isPC] at hc
+  | discFinish => rw [hr] at hc; simp [couple, SS.isPC] at hc
+  | stopped => rw [hr] at hc; simp [couple, SS.post] at hc
+
+/-- The "session closed" disjunct of `C02_no_stuck`, without further hypotheses: in every reachable
+    state whose status is ActiveClosed or PassiveClosed and in which no internal step is enabled, EVERY
+    call — also one issued, stored or about to be written while or after the session closed — has
+    completed exactly once. -/
+theorem C02_no_stuck_closed (s : State) (r : Reachable s)
+    (hq : ∀ l : Label, l.internal = true → fire s l = none) (hc : s.status.closed = true) :
+    ∀ (i : Nat) (c : Call), s.calls[i]? = some c → c.doneCount = 1 ∧ c.chanSends = 1 :=
+  quiescent_done (ainv_reach r) (ginv_reach r) hq (Or.inr ((ginv_reach r).sock hc))
+
+/-- call 0 is written; the application calls `Close`, which waits for it; the reply arrives and completes
+    it; `Close` returns; call 1 is issued on the closed session and fails its write with 102; the reader
+    ends on the closed socket. The connection is never lost. -/
+def closedRun : List Label :=
+  [.issue false false false false 2, .store 0, .prewrite 0, .write 0 .ok, .unlock 0, .close, .closeCtxWait,
+   .frame (.reply 1 .ok 0), .read, .bind, .hDone 0, .hUnlock 0, .closeCallWait,
+   .issue false false false false 2, .store 1, .prewrite 1, .write 1 .refused, .failDone 1, .unlock 1,
+   .readerEof, .discLoad]
+
+def closedEnd : State :=
+  { calls := [{ pc := .returned, mu := .free, hasReply := true, stat := 0, doneCount := 1, chanSends := 1,
+                inTable := false, rstat := 0, rerr := false, veto := false, ctxDone := false, tooBig := false,
+                bytesRes := false, cap := 2 },
+              { pc := .returned, mu := .free, hasReply := false, stat := 102, doneCount := 1, chanSends := 1,
+                inTable := false, rstat := 0, rerr := false, veto := false, ctxDone := false, tooBig := false,
+                bytesRes := false, cap := 2 }],
+    inq := [], lost := false, sockClosed := true, status := .activeClosed, rpc := .stopped, cpc := .returned,
+    otherH := 0, crashed := false, leaked := false }
+
+/-- non-vacuity of `C02_no_stuck_closed` / `C02_close_waits`: `closedEnd` is reachable (by `closedRun`),
+    closed (ActiveClosed, connection not lost) and no internal step is enabled. -/
+example : Reachable closedEnd ∧ closedEnd.status.closed = true ∧ closedEnd.status = .activeClosed ∧
+    closedEnd.lost = false ∧ (∀ l : Label, l.internal = true → fire closedEnd l = none) := by
+  have hr : run State.init closedRun = some closedEnd := by decide
+  refine ⟨reach_run .init _ hr, rfl, rfl, rfl, ?_⟩
+  intro l hl
+  cases l with
+  | write i o => rcases i with _ | _ | i <;> cases o <;> simp [fire, closedEnd]
+  | store i => rcases i with _ | _ | i <;> simp [fire, closedEnd]
+  | prewrite i => rcases i with _ | _ | i <;> simp [fire, closedEnd]
+  | failDone i => rcases i with _ | _ | i <;> simp [fire, closedEnd]
+  | unlock i => rcases i with _ | _ | i <;> simp [fire, closedEnd]
+  | hDone i => rcases i with _ | _ | i <;> simp [fire, closedEnd]
+  | hUnlock i => rcases i with _ | _ | i <;> simp [fire, closedEnd]
+  | issue _ _ _ _ _ => simp [Label.internal] at hl
+  | frame _ => simp [Label.internal] at hl
+  | lose => simp [Label.internal] at hl
+  | close => simp [Label.internal] at hl
+  | _ => simp [fire, closedEnd]
+
+/-- `Close` really waits (non-vacuity of the blocking side of `C02_close_waits`): after the first seven
+    steps of `closedRun` — call 0 written and unanswered, `Close` past the handler wait group — the step
+    that lets `Close` return is not enabled. -/
+example : ∃ s, run State.init (closedRun.take 7) = some s ∧ s.cpc = .callWait ∧ fire s .closeCallWait = none := by
+  have h : run State.init (closedRun.take 7) = some ((run State.init (closedRun.take 7)).getD State.init) := by decide
+  exact ⟨_, h, by decide, by decide⟩
+
+/-! ### all three -/
+
+/-- NONE HANGS, full strength. For every interleaving of any number of callers, the reader, handler
+    goroutines, the disconnect path (cancel loop in any order), `Close`, and every environment (frames
+    with any seq / decode outcome / status, connection loss, write cuts): in every reachable state in
+    which no internal step is enabled — every further step needs a NEW external event — every call whose
+    reply has arrived, or whose connection has been lost, or whose session has been closed, has
+    completed exactly once (done channel closed once, one send on the completion channel). -/
+theorem C02_no_stuck (s : State) (r : Reachable s) (hq : ∀ l : Label, l.internal = true → fire s l = none) :
+    ∀ (i : Nat) (c : Call), s.calls[i]? = some c →
+      (c.hasReply = true ∨ s.lost = true ∨ s.status.closed = true) → c.doneCount = 1 ∧ c.chanSends = 1 := by
+  intro i c hc h
+  rcases h with h | h | h
+  · exact C02_no_stuck_reply s r hq i c hc h
+  · exact C02_no_stuck_lost s r hq h i c hc
+  · exact C02_no_stuck_closed s r hq h i c hc
+
+/-- non-vacuity of `C02_no_stuck`: the three witnesses above are reachable quiescent states, one per
+    disjunct, and in none of them the other two disjuncts' conditions are needed (`answered`: not lost,
+    status Ok; `closedEnd`: not lost; `lostEnd`: call without a reply). -/
+example : (answered.lost = false ∧ answered.status.closed = false) ∧ closedEnd.lost = false ∧
+    (∃ c, lostEnd.calls[0]? = some c ∧ c.hasReply = false ∧ c.stat = 102) := by decide
 
 /-! ## request above the size limit -/
 
@@ -236,12 +423,157 @@ theorem C02_oversize_request_completes :
 /-- Every internal step (any step that is not a new external event: call issue, frame arrival,
     connection loss, Close call) strictly decreases the natural-number measure `measure`; so from any
     state only finitely many internal steps are possible before a state with no enabled internal step
-    is reached — under weak fairness, "completion follows without any further external event" is exactly
-    "no call that should be complete is incomplete in a state without enabled internal steps"
-    (`C02_no_stuck_partial`). -/
+    is reached. -/
 theorem C02_measure (s t : State) (l : Label) (hl : l.internal = true) (hf : fire s l = some t) :
     measure t < measure s :=
   measure_step hl hf
+
+/-- "Once the reply has arrived, the connection has been lost, or the session has been closed,
+    completion follows without any further external event": from a reachable state `s`, every run of
+    internal steps only (no call issue, no frame, no loss, no `Close` call) has at most `measure s`
+    steps; it keeps the same calls; and when it reaches a state `t` in which it cannot be extended
+    (no internal step enabled — which every maximal run does, by the bound), every call that had its
+    reply in `s`, and every call at all if in `s` the connection was lost or the session closed, has
+    completed exactly once in `t`. -/
+theorem C02_completion_follows (s t : State) (r : Reachable s) (ls : List Label)
+    (hint : ∀ l ∈ ls, l.internal = true) (hrun : run s ls = some t)
+    (hq : ∀ l : Label, l.internal = true → fire t l = none) :
+    ls.length ≤ measure s ∧ t.calls.length = s.calls.length ∧
+    ∀ (i : Nat) (c : Call), t.calls[i]? = some c →
+      ((c.hasReply = true ∨ s.lost = true ∨ s.status.closed = true) → c.doneCount = 1 ∧ c.chanSends = 1) := by
+  obtain ⟨h1, h2, h3, h4⟩ := run_internal ls hint hrun
+  have rt : Reachable t := reach_run r ls hrun
+  refine ⟨by omega, h4, ?_⟩
+  intro i c hc h
+  rcases h with h | h | h
+  · exact C02_no_stuck_reply t rt hq i c hc h
+  · exact C02_no_stuck_lost t rt hq (h2 h) i c hc
+  · exact quiescent_done (ainv_reach rt) (ginv_reach rt) hq (Or.inr (h3 ((ginv_reach r).sock h))) i c hc
+
+/-- the state right after the connection loss in `lostRun`: call 0 written and pending, the reader still
+    in its read loop. -/
+def lostMid : State :=
+  { calls := [{ pc := .returned, mu := .free, hasReply := false, stat := 0, doneCount := 0, chanSends := 0,
+                inTable := true, rstat := 0, rerr := false, veto := false, ctxDone := false, tooBig := false,
+                bytesRes := false, cap := 2 }],
+    inq := [], lost := true, sockClosed := false, status := .ok, rpc := .reading, cpc := .idle, otherH := 0,
+    crashed := false, leaked := false }
+
+def lostMidEnd : State :=
+  { calls := [{ pc := .returned, mu := .free, hasReply := false, stat := 102, doneCount := 1, chanSends := 1,
+                inTable := false, rstat := 0, rerr := false, veto := false, ctxDone := false, tooBig := false,
+                bytesRes := false, cap := 2 }],
+    inq := [], lost := true, sockClosed := true, status := .passiveClosed, rpc := .stopped, cpc := .idle, otherH := 0,
+    crashed := false, leaked := false }
+
+/-- non-vacuity of `C02_completion_follows`: `lostMid` is reachable, its connection is lost and its call
+    is not completed; 8 internal steps and nothing else lead to `lostMidEnd`, in which no internal step
+    is enabled and the call has been cancelled. -/
+example : Reachable lostMid ∧ lostMid.lost = true ∧
+    run lostMid [.readerEof, .discLoad, .discStore, .discCtxWait [0], .discPick, .discVisit, .discPick, .discFinish]
+      = some lostMidEnd ∧
+    (∀ l ∈ [Label.readerEof, .discLoad, .discStore, .discCtxWait [0], .discPick, .discVisit, .discPick, .discFinish],
+      l.internal = true) ∧
+    (∀ l : Label, l.internal = true → fire lostMidEnd l = none) := by
+  have hr : run State.init (lostRun.take 6) = some lostMid := by decide
+  refine ⟨reach_run .init _ hr, rfl, by decide, by decide, ?_⟩
+  intro l hl
+  cases l with
+  | write i o => rcases i with _ | i <;> cases o <;> simp [fire, lostMidEnd]
+  | store i => rcases i with _ | i <;> simp [fire, lostMidEnd]
+  | prewrite i => rcases i with _ | i <;> simp [fire, lostMidEnd]
+  | failDone i => rcases i with _ | i <;> simp [fire, lostMidEnd]
+  | unlock i => rcases i with _ | i <;> simp [fire, lostMidEnd]
+  | hDone i => rcases i with _ | i <;> simp [fire, lostMidEnd]
+  | hUnlock i => rcases i with _ | i <;> simp [fire, lostMidEnd]
+  | issue _ _ _ _ _ => simp [Label.internal] at hl
+  | frame _ => simp [Label.internal] at hl
+  | lose => simp [Label.internal] at hl
+  | close => simp [Label.internal] at hl
+  | _ => simp [fire, lostMidEnd]
+/-! ## tie A: the statement shape of the call life cycle (`Teleport.Gen.CallPath`, regenerated from
+`session.go` / `context.go` on every run by `srcfacts`). Each theorem states "the extracted fact = the
+shape Model/CallLife assumes" and names the label of `CallLife.fire` it justifies. -/
+
+/-- keep only the landmarks named in `ks` (the order relative to other landmarks is not the fact). -/
+def proj (ks l : List String) : List String := l.filter ks.contains
+
+/-- the landmark statements `AsyncCall` may contain. -/
+def asyncCallKnown : List String :=
+  ["seq.alloc", "callWG.add", "cmd.mu.lock", "defer cmd.mu.unlock", "table.store", "prewrite", "done@veto", "write",
+   "done@write-failure", "postwrite"]
+
+/-- **Labels `issue · store · prewrite · write · failDone · unlock` of `CallLife.fire`.** The caller's
+    program counter runs `locked → stored → (prewrite veto: failing) → writing → (write failed: failing) →
+    written → unlocking`, the call's mutex is `Mu.caller` from `issue` to `unlock`, and `callWG` counts the
+    call from `issue` on. The code justifies it iff in `AsyncCall`: the call's mutex is locked and its
+    release deferred BEFORE the call is stored in the pending table (nobody who finds it there can act on
+    it before the caller leaves); the store precedes the pre-write hook and the write; `done()` is called
+    exactly in the veto branch (before the write) and in the write-failure branch (after it), both
+    followed by `return`; `graceCallCmdWaitGroup.Add(1)` precedes the store (the canceller's `Done` cannot
+    come first); and there is no other landmark (no second store, no un-deferred unlock, no `done()`
+    elsewhere, nothing inside a closure). -/
+theorem C02_callpath_asynccall_shape :
+    Gen.callPath_missing = [] ∧
+    proj ["cmd.mu.lock", "defer cmd.mu.unlock", "table.store", "prewrite", "done@veto", "write", "done@write-failure"]
+        Gen.asyncCall_landmarks =
+      ["cmd.mu.lock", "defer cmd.mu.unlock", "table.store", "prewrite", "done@veto", "write", "done@write-failure"] ∧
+    proj ["callWG.add", "table.store"] Gen.asyncCall_landmarks = ["callWG.add", "table.store"] ∧
+    Gen.asyncCall_landmarks.all asyncCallKnown.contains = true ∧
+    Gen.asyncCall_landmarks.length = asyncCallKnown.length := by
+  decide
+
+/-- **`CallLife.complete`** (used by `failDone`, `hDone`, `bind`→finish, `discVisit`): ONE table delete, ONE
+    send on the completion channel, ONE `close(doneChan)`, ONE `callWG.Done`, in this order, all
+    unconditional — `chanSends` and `doneCount` grow by exactly one per completion, which is what
+    `C02_at_most_once` counts (a second `close` is the crash the model records). The code justifies it iff
+    `callCmd.done` and `callCmd.cancel` consist of exactly these four landmark statements. -/
+theorem C02_callpath_complete_once :
+    Gen.callPath_missing = [] ∧
+    Gen.callCmd_done = ["table.delete", "chan.send", "close.doneChan", "callWG.done"] ∧
+    Gen.callCmd_cancel = ["table.delete", "chan.send", "close.doneChan", "callWG.done"] := by
+  decide
+
+/-- **Labels `read` (table lookup by the frame's seq) and `bind`** (`mu.Lock`; a call that already has a
+    reply or is already completed is unlocked again and forgotten, otherwise it stays locked for
+    `handleReply`). The code justifies it iff `bindReply` loads the call by the header parameter's
+    `Seq()`, binds it to the context, locks its mutex unconditionally exactly once, and every exit is one
+    of: before the lock (unknown seq); after the lock with `mu.Unlock()` AND `c.callCmd = nil` on the way
+    (exactly one such path: fix fc90a5b); after the lock with the call still bound and the mutex still
+    held (the bound exits, at least one) — never unlocked-but-bound or unbound-but-locked. -/
+theorem C02_callpath_bindreply_locks :
+    Gen.callPath_missing = [] ∧
+    Gen.bindReply_lookup_key = ["param.Seq()"] ∧
+    Gen.bindReply_landmarks = ["table.load", "bind", "mu.lock", "mu.unlock@branch", "unbind"] ∧
+    Gen.bindReply_exits.all ["before-lock", "after-lock:unlock+unbind", "after-lock:bound"].contains = true ∧
+    Gen.bindReply_exits.count "before-lock" = 1 ∧
+    Gen.bindReply_exits.count "after-lock:unlock+unbind" = 1 ∧
+    Gen.bindReply_exits.contains "after-lock:bound" = true := by
+  decide
+
+/-- **Labels `hDone` then `hUnlock`** (and the reader-side finish of `bind`): the completion happens while
+    the call's mutex is still held and the mutex is released afterwards on EVERY path, including a
+    panicking hook (`C02_no_reader_lock`, `C02_bound_reply_completes`). The code justifies it iff
+    `handleReply` returns at once when no call is bound and otherwise defers ONE function literal whose
+    unconditional statements contain, in this order, `recover()`, `c.callCmd.done()`, `c.callCmd.mu.Unlock()`
+    — no `return` inside, neither statement under a condition. -/
+theorem C02_callpath_handlereply_done_then_unlock :
+    Gen.callPath_missing = [] ∧
+    Gen.handleReply_prefix = ["guard:callCmd==nil:return"] ∧
+    Gen.handleReply_deferred = ["recover", "done", "mu.unlock"] := by
+  decide
+
+/-- **The read loop never leaves a bound call behind** (fix ba33958; label `bind` with decode outcome
+    `errNil`/`panic`, and the failed spawn): `finishBoundReply` exists, does nothing when no call is bound
+    and otherwise calls `handleReply` unconditionally; `startReadAndHandle` calls it on each of the three
+    paths on which `handle()` is not dispatched: after a recovered panic of `ReadMessage`, when leaving
+    the loop after a read error without codec / a closed session, and when the handler goroutine could
+    not be spawned. -/
+theorem C02_callpath_finish_bound_reply :
+    Gen.callPath_missing = [] ∧
+    Gen.finishBoundReply_landmarks = ["guard:callCmd==nil:return", "handleReply"] ∧
+    Gen.finishBoundReply_sites = ["deferred:after-recover", "loop:leaving", "loop:handle-not-spawned"] := by
+  decide
 
 end C02
 end Teleport
